@@ -312,6 +312,10 @@ def check_c15(pid, tier, t0, replay_key):
         findings += f
         obl += o
         st.update(s2)
+    f, o, s2 = e4.rule_x11(P, reach, tables)
+    findings += f
+    obl += o
+    st.update(s2)
     import e7
     f, o, s2 = e4.rule_x10(P, reach, tables, e7.g1_covers(P, tables))
     findings += f
